@@ -213,7 +213,7 @@ def instrument_clock(src_path, dst_path):
     return True
 
 
-def make_overlay(ctx, clock_pkgs=(), harness_pkgs=(), extra=None, tag=""):
+def make_overlay(ctx, clock_pkgs=(), harness_pkgs=(), extra=None, tag="", hmap=None):
     """Build the overlay JSON: instrumented copies of every non-test source of clock_pkgs
     that reads the clock, the virtual clock package, and the harness test files."""
     rep = {}
@@ -228,7 +228,7 @@ def make_overlay(ctx, clock_pkgs=(), harness_pkgs=(), extra=None, tag=""):
                     rep[os.path.join(d, fn)] = dst
     rep[os.path.join(REPO, "internal/verifclock/clock.go")] = os.path.join(HARNESS, "verifclock/clock.go")
     for pkg in harness_pkgs:
-        hd = os.path.join(HARNESS, os.path.basename(pkg))
+        hd = os.path.join(HARNESS, (hmap or {}).get(pkg, os.path.basename(pkg)))
         for fn in sorted(os.listdir(hd)):
             if fn.endswith(".go"):
                 rep[os.path.join(REPO, pkg, fn)] = os.path.join(hd, fn)
